@@ -519,6 +519,11 @@ func (f *Frame) contractCall(st *State, r *Term, target *ssa.Function, tmap TMap
 		ctx.assume(Implies(r, f.copyEnsures(cf, target, pre, st, args, out[0].(*Term), rs[0].T)))
 	}
 	for _, en := range ct.Ensures {
+		if mentionsLetRegister(en.Expr, ct) {
+			// a postcondition phrased over a ghost value of the callee's own run (at-call let) says
+			// nothing a caller can use
+			continue
+		}
 		se := cf.specEnv(st, pre)
 		se.results = rs
 		se.positive = true
@@ -588,4 +593,29 @@ func (f *Frame) invalidateRegisters(st *State) {
 	for _, name := range regs {
 		st.heap[name] = f.ctx.fresh("reg", f.ctx.eng.compSeen[name])
 	}
+}
+
+// mentionsLetRegister: the expression reads a `$name` that an at-call let clause of ct defines.
+func mentionsLetRegister(e *SExpr, ct *Contract) bool {
+	if e == nil {
+		return false
+	}
+	if e.Kind == SIdent && strings.HasPrefix(e.Name, "$") {
+		for _, ac := range ct.AtCalls {
+			if ac.Let != "" && "$"+ac.Let == e.Name {
+				return true
+			}
+		}
+	}
+	for _, a := range e.Args {
+		if mentionsLetRegister(a, ct) {
+			return true
+		}
+	}
+	for _, a := range e.Witness {
+		if mentionsLetRegister(a, ct) {
+			return true
+		}
+	}
+	return false
 }
